@@ -112,6 +112,7 @@ type pathExec struct {
 	strTab          map[string]value
 	floatStrings    map[string][2]*smt.Term
 	clock           int
+	uuidN           int
 	initFailed      map[string]string
 	spec            int
 	fusions, merges int
